@@ -130,8 +130,12 @@ theorem no_panic_socks5ClientUnpack (fs : Bool) (b : Bytes) (ps pl : Nat) (hb : 
 
 /-- `ShadowStreamConn.read`: for every stream, every AEAD behaviour and every advertised chunk length, given a
 buffer of capacity `streamReadMinBufferSize` (all call sites: `Read`, `WriteTo`, `writeToShadowStreamConn`) -/
-theorem no_panic_streamRead (cap : Nat) (hcap : Gen.C06.streamReadMinBufferSize ≤ cap) (openChunk : Bytes → Option Bytes)
-    (stream : Bytes) : streamRead cap openChunk stream ≠ .panic := np_streamRead cap hcap openChunk stream
+theorem no_panic_streamRead (cap : Nat) (hcap : Gen.C06.streamReadMinBufferSize ≤ cap) (sticky : Option Err)
+    (openChunk : Bytes → Option Bytes) (stream : Bytes) : streamRead cap sticky openChunk stream ≠ .panic :=
+  np_streamRead cap hcap sticky openChunk stream
+/-- `readChunk` slices without a capacity check of its own: it is reached only through `read`'s guard
+(regenerated fact: every call of `readChunk` is inside `ShadowStreamConn.read`) -/
+theorem streamReadChunk_only_behind_guard : Gen.C06.readChunkOnlyCalledFromRead = true := by decide
 /-- the call site with the tightest buffer: `writeBuf[2+tagSize : 2+tagSize]` of a `streamWriteBufferSize` buffer -/
 theorem streamRead_callsite_cap : Gen.C06.streamReadMinBufferSize ≤ Gen.C06.streamWriteBufferSize - (2 + Gen.C06.tagSize) := by decide
 /-- the largest chunk fits: `streamMaxPayloadSize + tagSize ≤ streamReadMinBufferSize`, and a u16 length cannot exceed it -/
@@ -393,7 +397,10 @@ theorem shape_serverHandleBasicAuth : Gen.C06.serverHandleBasicAuth_shape =
     ["header[\"Proxy-Authorization\"]", "if len(creds) > len(prefix) && (creds[0] == 'B' || creds[0] == 'b') && (creds[1] == 'a' || creds[1] == 'A') && (creds[2] == 's' || creds[2] == 'S') && (creds[3] == 'i' || creds[3] == 'I') && (creds[4] == 'c' || creds[4] == 'C') && creds[5] == ' ' => return", "creds[0]", "creds[0]", "creds[1]", "creds[1]", "creds[2]", "creds[2]", "creds[3]", "creds[3]", "creds[4]", "creds[4]", "creds[5]", "creds[len(prefix):]"] := rfl
 
 theorem shape_ShadowStreamConnRead : Gen.C06.ShadowStreamConnRead_shape =
-    ["if cap(b) < streamReadMinBufferSize => return", "panic", "b[:2+tagSize]", "call Uint16", "b[:length+tagSize]"] := rfl
+    ["if cap(b) < streamReadMinBufferSize => return", "panic"] := rfl
+
+theorem shape_ShadowStreamConnReadChunk : Gen.C06.ShadowStreamConnReadChunk_shape =
+    ["b[:2+tagSize]", "call Uint16", "b[:length+tagSize]"] := rfl
 
 theorem audited_shape_StreamServerHandleStream : Gen.C06.StreamServerHandleStream_shape =
     ["if bufferLen <= cap(writeBuf)", "writeBuf[:bufferLen]", "b[:reservedStart]", "if n > 0 && s.unsafeFallbackAddr.IsValid() => return", "readBuf[:n]", "b[:urspLen]", "b[urspLen:identityHeaderStart]", "b[fixedLengthHeaderStart:reservedStart]", "b[reservedStart:]", "b[identityHeaderStart:fixedLengthHeaderStart]", "conv [IdentityHeaderLength]byte", "if bufferLen <= cap(writeBuf)", "writeBuf[:bufferLen]"] := rfl
@@ -507,6 +514,7 @@ end SSV.C06
 #print axioms SSV.C06.no_panic_socks5ServerUnpack
 #print axioms SSV.C06.no_panic_socks5ClientUnpack
 #print axioms SSV.C06.no_panic_streamRead
+#print axioms SSV.C06.streamReadChunk_only_behind_guard
 #print axioms SSV.C06.streamRead_callsite_cap
 #print axioms SSV.C06.streamRead_u16_fits
 #print axioms SSV.C06.no_panic_hostHeaderToAddr
@@ -573,6 +581,7 @@ end SSV.C06
 #print axioms SSV.C06.shape_hostHeaderToAddr
 #print axioms SSV.C06.shape_serverHandleBasicAuth
 #print axioms SSV.C06.shape_ShadowStreamConnRead
+#print axioms SSV.C06.shape_ShadowStreamConnReadChunk
 #print axioms SSV.C06.audited_shape_StreamServerHandleStream
 #print axioms SSV.C06.audited_shape_ShadowStreamClientInitRead
 #print axioms SSV.C06.audited_shape_readOnceExpectFull
